@@ -101,6 +101,25 @@ class SByteArray:
         return r
 
 
+class SMemView:
+    """memoryview over a bytes value or a bytearray box: window [lo, lo+n)."""
+
+    def __init__(self, base: Any, lo: Any, n: Any):
+        self.base, self.lo, self.n = base, lo, n
+
+    def view(self) -> SBytes:
+        b = self.base.v if isinstance(self.base, SByteArray) else self.base
+        lo = self.lo
+        return SBytes(self.n, lambda i, b=b, lo=lo: b.at(lo + i), "mv")
+
+    def __deepcopy__(self, memo: dict) -> "SMemView":
+        import copy as _copy
+
+        r = SMemView(_copy.deepcopy(self.base, memo), self.lo, self.n)
+        memo[id(self)] = r
+        return r
+
+
 class SStr(Sym):
     """Opaque symbolic string: supports only == / != against strings and truthiness via its tag term."""
 
@@ -181,7 +200,7 @@ def is_int_like(v: Any) -> bool:
 
 
 def is_bytes_like(v: Any) -> bool:
-    return isinstance(v, (SBytes, SByteArray, bytes, bytearray))
+    return isinstance(v, (SBytes, SByteArray, bytes, bytearray, SMemView))
 
 
 def int_term(v: Any) -> Any:
@@ -232,6 +251,8 @@ def as_sbytes(v: Any) -> SBytes:
         return v
     if isinstance(v, SByteArray):
         return v.v
+    if isinstance(v, SMemView):
+        return v.view()
     if isinstance(v, (bytes, bytearray)):
         data = bytes(v)
         n = len(data)
